@@ -452,8 +452,9 @@ class WSGIRequestHandler(BaseHTTPRequestHandler):
         try:
             path = uri_to_iri(self.path)
             msg = f"{self.command} {path} {self.request_version}"
-        except AttributeError:
-            # path isn't set if the requestline was bad
+        except (AttributeError, ValueError):
+            # path isn't set if the requestline was bad, and an absolute
+            # URL as the target may not be a valid URL
             msg = self.requestline
 
         # Escape control characters that may be in the decoded path.
